@@ -411,7 +411,7 @@ Qed.
 (* (d) atomics: a misaligned effective address traps, the memory is unchanged; an aligned one behaves like the
    plain access *)
 Lemma atomic_traps_if_misaligned m ea n k :
-  ea mod n <> 0 -> atomic m ea n k = OTrap AUnaligned \/ atomic m ea n k = OTrap AEither.
+  ea mod n <> 0 -> atomic m ea n k = OTrap AUnaligned \/ atomic m ea n k = OTrap AOob.
 Proof.
   intros H. unfold atomic. destruct (Z.eqb_spec (ea mod n) 0); [contradiction|].
   destruct (access_ok (v_size m) ea n); auto.
@@ -419,13 +419,25 @@ Qed.
 
 Lemma atomic_misaligned_traps m a ea n :
   atomic_ea_width a = Some (ea, n) -> ea mod n <> 0 ->
-  (run m a = OTrap AUnaligned \/ run m a = OTrap AEither) /\ mem_after m a = m /\ touched m a = [].
+  (run m a = OTrap AUnaligned \/ run m a = OTrap AOob) /\ mem_after m a = m /\ touched m a = [].
 Proof.
   intros Hw Hm. unfold mem_after, touched.
-  assert (H : run m a = OTrap AUnaligned \/ run m a = OTrap AEither).
+  assert (H : run m a = OTrap AUnaligned \/ run m a = OTrap AOob).
   { destruct a; cbn [atomic_ea_width] in Hw; try discriminate; injection Hw as E1 E2; subst; cbn [run];
       apply atomic_traps_if_misaligned; assumption. }
   destruct H as [-> | ->]; auto.
+Qed.
+
+(* an atomic access that is out of bounds traps with the out-of-bounds error, whatever its alignment *)
+Lemma atomic_oob_traps m a ea n :
+  atomic_ea_width a = Some (ea, n) -> access_ok (v_size m) ea n = false ->
+  run m a = OTrap AOob /\ mem_after m a = m /\ touched m a = [].
+Proof.
+  intros Hw Ho. unfold mem_after, touched.
+  assert (H : run m a = OTrap AOob).
+  { destruct a; cbn [atomic_ea_width] in Hw; try discriminate; injection Hw as E1 E2; subst; cbn [run];
+      unfold atomic, guarded; rewrite Ho; destruct (_ =? 0); reflexivity. }
+  rewrite H. auto.
 Qed.
 
 Lemma atomic_aligned_as_plain m ea n bs :
@@ -502,7 +514,7 @@ Proof. vm_compute. auto. Qed.
 Example ex_atomic :
   run (whole [1; 2; 3; 4; 5; 6; 7; 8]) (ARmw RAdd 4 4 (2 ^ 32 - 1)) = ODone (whole [1; 2; 3; 4; 4; 6; 7; 8]) [5; 6; 7; 8] /\
   run (whole [1; 2; 3; 4; 5; 6; 7; 8]) (ARmw RAdd 2 4 1) = OTrap AUnaligned /\
-  run (whole [1; 2; 3; 4; 5; 6; 7; 8]) (ARmw RAdd 6 4 1) = OTrap AEither /\
+  run (whole [1; 2; 3; 4; 5; 6; 7; 8]) (ARmw RAdd 6 4 1) = OTrap AOob /\
   run (whole [1; 2; 3; 4; 5; 6; 7; 8]) (ARmw RAdd 8 4 1) = OTrap AOob /\
   run (whole [1; 2; 3; 4; 5; 6; 7; 8]) (ACmpxchg 6 2 (7 + 256 * 8) 513) = ODone (whole [1; 2; 3; 4; 5; 6; 1; 2]) [7; 8] /\
   atomic_ea_width (ARmw RAdd 2 4 1) = Some (2, 4) /\ 2 mod 4 <> 0.
